@@ -28,7 +28,7 @@ func (s Site) Pos() token.Pos {
 	}
 	return fnPos(s.Fn)
 }
-func (s Site) Args() []ssa.Value { return s.Instr.Common().Args }
+func (s Site) Args() []ssa.Value      { return s.Instr.Common().Args }
 func (s Site) Block() *ssa.BasicBlock { return s.Instr.Block() }
 
 // Name of the called thing for matching: "pkgrel.Func", "pkgrel.(Recv).Method" or "iface:pkgrel.Iface.Method"
@@ -816,7 +816,6 @@ func (p *Prog) sortedFuncs() []*ssa.Function {
 	return out
 }
 
-
 // arrayLiteral: elements stored into a local array alloc at constant indices (varargs / composite literal), in index order.
 func arrayLiteral(a *ssa.Alloc) []ssa.Value {
 	refs := a.Referrers()
@@ -856,7 +855,6 @@ func arrayLiteral(a *ssa.Alloc) []ssa.Value {
 	}
 	return out
 }
-
 
 // returnsOf lists the (de-spilled) result tuples of fn's normal returns. go/ssa spills results into locals when the
 // function has defers: `*t0 = v; rundefers; t = *t0; return t` — the stored value is recovered. The synthetic
@@ -910,7 +908,6 @@ func unspill(r ssa.Value, b *ssa.BasicBlock) ssa.Value {
 	}
 	return r
 }
-
 
 // canonGeneric maps an "instantiation" whose type arguments are the generic's own type parameters (the form in which
 // generic bodies call sibling generic methods) back to the generic origin, which is the function we analyse.
@@ -1169,7 +1166,6 @@ func (p *Prog) closureTrueCond(mc *ssa.MakeClosure) dnf {
 	return out
 }
 
-
 // withFuncValues: fn, its function literals, and the named same-package functions it passes around as values (a closure
 // turned into a named function stays in view).
 func withFuncValues(fn *ssa.Function) []*ssa.Function {
@@ -1195,7 +1191,6 @@ func withFuncValues(fn *ssa.Function) []*ssa.Function {
 	}
 	return out
 }
-
 
 // structLiteralFields: v is a struct value built by a composite literal — here, or as the single result of a same-package
 // constructor (its parameters replaced by the call's argument terms). Returns field name → term of the value the field
@@ -1280,7 +1275,6 @@ func structLiteralFields(v ssa.Value, depth int) map[string]string {
 	}
 	return nil
 }
-
 
 // substTermChain rewrites a term of a helper reached through chain into the anchor function's terms (parameters replaced
 // by the argument terms of each call of the chain, innermost first).
